@@ -31,6 +31,8 @@ type cs struct {
 	Mut    string `json:"mut,omitempty"`    // flip:byte:bit | trunc:len | append:byte | varint:kind | sid | curve:<name>
 	// two: a second session (A2, B2, seed+7) runs interleaved with the first one in the same process; Order is the
 	// interleaving of the two sessions' steps (0 = a step of the first, 1 = a step of the second)
+	// Chunk > 0: the randomness sources return at most Chunk bytes per Read (short reads)
+	Chunk int    `json:"chunk,omitempty"`
 	A2    string `json:"a2,omitempty"`
 	B2    string `json:"b2,omitempty"`
 	Order []int  `json:"order,omitempty"`
@@ -106,21 +108,21 @@ type honest struct {
 var honestCache = map[string]*honest{}
 
 func getHonest(k cs) (*honest, error) {
-	key := fmt.Sprintf("%s|%s|%s|%d", k.Curve, k.A, k.B, k.Seed)
+	key := fmt.Sprintf("%s|%s|%s|%d|%d", k.Curve, k.A, k.B, k.Seed, k.Chunk)
 	if h, ok := honestCache[key]; ok {
 		return h, nil
 	}
 	h := &honest{curve: curveByName(k.Curve), a: input32(k.A), b: input32(k.B), seed: k.Seed, enc: map[string][]byte{}}
 	var err error
-	h.m1, h.gs, err = sha2pc.GarblerRound1(drbg.New(k.Seed*3+1), h.curve)
+	h.m1, h.gs, err = sha2pc.GarblerRound1(drbg.NewChunked(k.Seed*3+1, k.Chunk), h.curve)
 	if err != nil {
 		return nil, fmt.Errorf("round1: %v", err)
 	}
-	h.m2, h.es, err = sha2pc.EvaluatorRound2(drbg.New(k.Seed*3+3), h.curve, h.m1, h.b)
+	h.m2, h.es, err = sha2pc.EvaluatorRound2(drbg.NewChunked(k.Seed*3+3, k.Chunk), h.curve, h.m1, h.b)
 	if err != nil {
 		return nil, fmt.Errorf("round2: %v", err)
 	}
-	h.m3, err = sha2pc.GarblerRound3(drbg.New(k.Seed*3+2), h.curve, h.gs, h.a, h.m2)
+	h.m3, err = sha2pc.GarblerRound3(drbg.NewChunked(k.Seed*3+2, k.Chunk), h.curve, h.gs, h.a, h.m2)
 	if err != nil {
 		return nil, fmt.Errorf("round3: %v", err)
 	}
@@ -670,6 +672,15 @@ func work(ctx *runner.Ctx) {
 				}
 				cases = append(cases, cs{Mode: "correct", Curve: cv, A: a, B: b, Seed: seed})
 			}
+		}
+	}
+	// randomness sources with short reads
+	for ci, cv := range curves {
+		for _, ch := range []int{1, 16, 100} {
+			if quick && cv != "P-256" && ch != 16 {
+				continue
+			}
+			cases = append(cases, cs{Mode: "correct", Curve: cv, A: A[4], B: A[(2+ci)%5], Seed: seed, Chunk: ch})
 		}
 	}
 	// identity + restart subsets
